@@ -1,6 +1,6 @@
 """C20 — hourly-series builders produce exactly the requested time line (post-condition monitor with a datetime oracle)."""
 import math, hashlib, random
-from datetime import datetime, timedelta
+from datetime import datetime, timedelta, timezone
 from fractions import Fraction
 import numpy as np
 from .. import env
@@ -29,7 +29,7 @@ def cases(tier, seed):
 
 def requirements(tier):
     return {"min_counters": {"calls_checked": 3000 if tier == "quick" else 90000, "freq_weekly": 100, "freq_monthly": 100, "freq_yearly": 100,
-                             "freq_daily": 100, "daily_volume_full_days": 200, "midday_start": 500, "leap_day_series": 50, "invalid_refused": 50, "unaligned_start": 200},
+                             "freq_daily": 100, "daily_volume_full_days": 200, "midday_start": 500, "leap_day_series": 50, "invalid_refused": 50, "unaligned_start": 200, "aware_start": 100, "rebuilt_after_in_place_change": 100},
             "required_classes": HELPERS[:-1]}
 
 
@@ -55,7 +55,7 @@ def check_index(df, start, n, unit, E, V, what):
         V.append({"kind": "length", "helper": what, "got": len(df), "expected": n}); return False
     if n == 0:
         return True
-    if idx[0].to_pydatetime() != start:
+    if idx[0].to_pydatetime() != start or (start.tzinfo is not None and (idx.tz is None or idx[0].utcoffset() != start.utcoffset())):
         V.append({"kind": "series does not start at the requested start date", "helper": what, "got": str(idx[0]), "expected": str(start)}); return False
     if n > 1:
         d = np.diff(idx.asi8)
@@ -81,6 +81,10 @@ def one_call(rnd, E, C, V, classes):
     if rnd.random() < 0.15:
         start = start.replace(minute=rnd.choice([30, 1, 59]), second=rnd.choice([0, 1]))      # "starting at the requested start date"
         C["unaligned_start"] = C.get("unaligned_start", 0) + 1
+    if helper in ("from_list", "source_from_list", "linear", "frequency", "daily_volume") and rnd.random() < 0.15:
+        # a time-zone-aware start date (fixed offset): the series starts at that very instant and keeps its wall clock
+        start = start.replace(tzinfo=timezone(timedelta(hours=rnd.choice([2, -5, 5.5, 9]))))
+        C["aware_start"] = C.get("aware_start", 0) + 1; classes.add("aware_start")
     unit = rnd.choice(UNITS)
     punit = E.u(unit).units if unit != "dimensionless" else E.u.dimensionless
     if start.hour != 0:
@@ -136,7 +140,8 @@ def one_call(rnd, E, C, V, classes):
         desc["timespan"] = str(ts)
         if helper == "daily_volume":
             hours = rnd.sample(range(24), rnd.randint(1, 6)); vol = rnd.choice([24.0, 1000.0, 7.5])
-            df = tb.create_hourly_usage_from_daily_volume_and_list_of_hours(ts, vol, hours, start, punit).value
+            build = lambda: tb.create_hourly_usage_from_daily_volume_and_list_of_hours(ts, vol, hours, start, punit)
+            df = build().value
             freq, days, v = "daily", None, vol / len(hours)
             desc.update(hours=hours, volume=vol)
         else:
@@ -151,7 +156,8 @@ def one_call(rnd, E, C, V, classes):
             else:
                 days = rnd.choice([None, [1], [60], [366], [365], [59, 100], [start.timetuple().tm_yday], [(start + timedelta(days=1)).timetuple().tm_yday]])
             v = rnd.choice([1.0, 250.0, 0.5])
-            df = tb.create_hourly_usage_from_frequency(ts, v, freq, days, hours, start, punit).value
+            build = lambda: tb.create_hourly_usage_from_frequency(ts, v, freq, days, hours, start, punit)
+            df = build().value
             C["freq_" + freq] += 1
             desc.update(frequency=freq, active_days=days, hours=hours)
         if check_index(df, start, n, unit, E, V, helper):
@@ -186,6 +192,21 @@ def one_call(rnd, E, C, V, classes):
                         break
                     i0 += 24
             nt = n >= 2 and hit > 0
+            if not V and rnd.random() < 0.3:
+                # the caller changes a returned series in place (public .round / .to), then asks for the same series again
+                r1 = build()
+                alt = {"GB": "MB", "kWh": "Wh", "kg": "g", "W": "kW"}.get(unit)
+                try:
+                    r1.round(0)
+                    if alt:
+                        r1.to(E.u(alt).units)
+                    r1.value.iloc[0, 0] = r1.value.iloc[0, 0] * 0 + 12345 * r1.value.iloc[0, 0].units
+                except Exception:
+                    pass
+                df2 = build().value
+                C["rebuilt_after_in_place_change"] = C.get("rebuilt_after_in_place_change", 0) + 1
+                if check_index(df2, start, n, unit, E, V, helper + " (second call with the same arguments)") and not np.array_equal(mags(df2), exp):
+                    V.append({"kind": "the same call gives another series after an earlier result was changed in place", "helper": helper, "args": desc})
     elif helper == "random":
         ts, hrs = timespan(rnd, E)
         n = math.floor(hrs) + 1
